@@ -106,7 +106,9 @@ def script_text(i, case, dirs):
 OPTIONS = ("argument('name', default='d')\n"
            "argument('foo', action='enable')\n"
            "argument('bar', action='with')\n"
-           "argument('num', default='0')\n")
+           "argument('num', default='0')\n"
+           "argument('x11', action='with')\n"
+           "argument('xml', action='enable')\n")
 
 
 def cmdline(case, plain):
@@ -123,6 +125,10 @@ def cmdline(case, plain):
         out.append('%s%s-bar' % (pre(2), ['', 'with', 'without'][vals[2]]))
     if vals[3]:
         out.append('%snum=%s' % (pre(3), ['', '7', '-1'][vals[3]]))
+    if vals[4]:
+        out.append('%s%s-x11' % (pre(4), ['', 'with', 'without'][vals[4]]))
+    if vals[5]:
+        out.append('%s%s-xml' % (pre(5), ['', 'enable', 'disable'][vals[5]]))
     return out
 
 
